@@ -145,6 +145,11 @@ WrapClose(chain, i) == IF i > Len(chain) THEN <<>> ELSE Raw(<<Out([k |-> "}"], "
 
 RECURSIVE Items(_, _, _, _), Keyframes(_, _, _)
 Both(n, l, w) == [normal |-> n, low |-> l, warn |-> w]
+(* a diagnostic names the item it is about and where its (empty) location lies:
+     "afterkeyword" - directly behind the at-keyword of item `from` (an import: the cursor has read `@import` and nothing else);
+     "prelude"      - somewhere from the first character of token `from` (the rule's first selector token) up to the
+                      opening brace of the item: the place of a :host combination is inside the selector that holds it *)
+Warn(kind, id, where, from) == [kind |-> kind, id |-> id, where |-> where, from |-> from]
 Cat(a, b) == [normal |-> a.normal \o b.normal, low |-> a.low \o b.low, warn |-> a.warn \o b.warn]
 
 (* keywords and function names of an import are ASCII case-insensitive; the form "STRING" spells them in capitals
@@ -194,7 +199,7 @@ Item(it, o, chain, first) ==
                       \o WrapClose(chain, 1),
                       <<>>)
             ELSE IF o.host /\ (StartsWithHost(it.sel) \/ HostLater(it.sel))
-            THEN Both(<<>>, <<>>, <<[kind |-> "HostSelectorCombination", id |-> it.id]>>)
+            THEN Both(<<>>, <<>>, <<Warn("HostSelectorCombination", it.id, "prelude", it.sel[1].id)>>)
             ELSE Both(SelToks(it.sel, 1, o, 0) \o <<Open(it.id)>> \o Decls(it.decls, 1, o) \o <<Close(it.id)>>, <<>>, <<>>)
       [] it.t = "at" ->
             LET head == <<Out([k |-> "at", v |-> it.name], "free", it.id)>> \o PreToks(it.pre, 1, o) IN
@@ -211,8 +216,8 @@ Item(it, o, chain, first) ==
             IF o.importSign = "none" THEN Both(ImportPlain(it, o), <<>>, <<>>)
             ELSE Both(ImportOut(it, o), <<>>,
                       CASE first = "first" -> <<>>
-                        [] first = "late" -> <<[kind |-> "IllegalImportPosition", id |-> it.id]>>
-                        [] OTHER -> <<[kind |-> "IllegalImportPosition?", id |-> it.id]>>)
+                        [] first = "late" -> <<Warn("IllegalImportPosition", it.id, "afterkeyword", it.id)>>
+                        [] OTHER -> <<Warn("IllegalImportPosition?", it.id, "afterkeyword", it.id)>>)
 
 Keyframes(fs, i, o) ==
     IF i > Len(fs) THEN <<>>
